@@ -534,6 +534,12 @@ func (fr *Frame) slice(x *ssa.Slice) Value {
 		if !ok {
 			// arr[n-len(b):] of a whole array, the destination of the left-padding copy idiom
 			if lt, isT := fr.get(x.Low).(TermV); isT && x.High == nil && x.Max == nil {
+				if sv, isS := it.rd(base).(SliceV); isS && sv.Lo == 0 {
+					// a slice covering its whole backing array
+					if n, isC := it.ApplyTerm(sv.Len).IsConst(); isC && int(n.Int64()) == len(sv.Arr.Kids) && len(sv.Arr.Kids) > 0 {
+						base = Ptr{sv.Arr}
+					}
+				}
 				if bp, isP := base.(Ptr); isP && len(bp.C.Kids) > 0 {
 					low := it.ApplyTerm(lt.T)
 					if lo, hi := low.Bounds(); lo.Sign() < 0 || hi.Cmp(big.NewInt(int64(len(bp.C.Kids)))) > 0 {
